@@ -36,6 +36,8 @@ type Solver struct {
 	levels    [][]func() // undo actions per push level
 	asserted  [][]*Term  // assertions per push level (for CheckFresh)
 	Log       io.Writer  // optional transcript
+	LogMax    int        // stop the transcript after this many check-sat commands (0 = never)
+	logged    int
 	Errors    int
 	Queries   int
 	NSat      int
@@ -303,6 +305,13 @@ func (s *Solver) Check() Result {
 	s.Time += time.Since(t0)
 	if s.Log != nil {
 		fmt.Fprintf(s.Log, "; => %s\n", r)
+		s.logged++
+		if s.LogMax > 0 && s.logged >= s.LogMax {
+			if c, ok := s.Log.(io.Closer); ok {
+				c.Close()
+			}
+			s.Log = nil
+		}
 	}
 	return r
 }
